@@ -660,13 +660,22 @@ func (m *Manager) HandleStreamReset(streamID uint64, errorCode uint16) {
 // ResetStreamsForPeer resets every stream whose first hop is peerID. It is
 // called when the connection to that peer is gone: the streams cannot continue
 // (frames in flight are lost), and they must not resume over a later connection
-// to the same peer. Returns the number of streams reset.
+// to the same peer. Opens still pending towards that peer have failed for the
+// same reason: their answer was due over the lost connection. Left pending,
+// an acknowledgement that was taken off that connection just before it went
+// away and is handled a moment later would establish a stream whose far side
+// has already been torn down. Returns the number of streams and opens reset.
 func (m *Manager) ResetStreamsForPeer(peerID identity.AgentID, errorCode uint16) int {
 	m.mu.RLock()
 	var ids []uint64
 	for id, s := range m.streams {
 		if s.RemoteID == peerID {
 			ids = append(ids, id)
+		}
+	}
+	for _, p := range m.pendingRequests {
+		if p.Stream != nil && p.Stream.RemoteID == peerID {
+			ids = append(ids, p.Stream.ID)
 		}
 	}
 	m.mu.RUnlock()
